@@ -18,7 +18,10 @@ func verifStubProof(name string) groth16.Proof {
 	sc := func(k string) *big.Int {
 		v := verifGet("scalar:" + k)
 		if v.Sign() == 0 {
-			return big.NewInt(1)
+			v = big.NewInt(1)
+		}
+		if name != "proof" { // further proofs of one harness run are distinct points
+			v = new(big.Int).Add(v, big.NewInt(int64(6+len(name))))
 		}
 		return v
 	}
